@@ -48,6 +48,9 @@ def main(argv):
     for d in diffs:
         if "/seeded/" in d:
             meta = json.load(open(os.path.join(os.path.dirname(d), "meta.json")))
+            if meta.get("assessment"):       # assessed as NOT a violation of its property (see meta.json): no VIOLATION is expected
+                print("%-8s %-55s not-a-violation (assessment in meta.json)" % (meta["property"], "seeded_" + os.path.basename(os.path.dirname(d))))
+                continue
             pid = meta["property"]
             link = os.path.join(tempfile.gettempdir(), "%s__seeded_%s.diff" % (pid, os.path.basename(os.path.dirname(d))))
             shutil.copy(d, link)
